@@ -23,7 +23,7 @@ ASSUMPTIONS = [
     "SwitchGDD=1 (documented to convert the user's crop object to thermal time) is not generated",
     "a configuration whose FIRST run ends in a documented rejection is not a history of runs and is only counted",
 ]
-BUDGET = {"quick": 200, "thorough": 3000}
+BUDGET = {"quick": 280, "thorough": 3000}
 CRASH_IS_VIOLATION = False
 DEEP = ["Maize", "MaizeGDD", "Cotton", "Sunflower", "Soybean", "AlfalfaGDD", "Sorghum", "SugarCane"]
 PROFILE = gen.profile(crops=DEEP + list(gen.CROPS), seasons=(1, 2), max_days=600, p_dz=0.4, p_co2=0.5, p_gw=0.3, p_harvest=0.3,
